@@ -113,6 +113,9 @@ class C07:
                           "%s writes storage directly: entry rows must only be written by storage_commit" % short(f.qname), func=f.qname, nontrivial=False)
         if n < 7:
             raise AnalysisError("only %d storage write sites found, expected >= 7" % n)
+        st_ = p.func("SyncEntry.store")
+        cl = [s for s in ctx.callers(st_) if s.kind == "call"]
+        rep.check("C07.R2", "SyncEntry.store|callers", st_, not cl, "no caller (legacy helper)", "SyncEntry.store() writes an entry row outside storage_commit, called from %s" % [s.loc() for s in cl], nontrivial=False)
         su = p.func("SyncState._storage_update")
         callers = {s.func.qname for s in ctx.callers(su)}
         rep.check("C07.R2", "_storage_update|callers", su, callers == {self.commit.qname}, "called only from storage_commit",
